@@ -85,6 +85,15 @@ Proof.
   - (* LCloseCall *)
     step_inv St. split; intros C; try intros G;
       apply cl_at_app_mark with (s := s) in C; try (cbn; reflexivity); try lia; cbn; auto.
+  - (* LFLock *)
+    step_inv St; unf; split; intros C; try intros G;
+    (apply cl_at_other with (s := s) in C; [|cbn; destr_goal; reflexivity]);
+    (match type of C with cl_at ?n _ => assert (C1 : cl_at 1 s) by (apply (cl_at_mono n 1); [lia|exact C]) end);
+    specialize (I1 C1); try discriminate; cbn; auto.
+  - (* LCCheck *)
+    step_inv St; unf; split; intros C; try intros G;
+    (apply cl_at_other with (s := s) in C; [|cbn; destr_goal; reflexivity]);
+    destr_goal; cbn; auto; try (specialize (I3 C); discriminate).
   - (* LCloseStep *)
     step_inv St; cbn in *;
     split; intros C; try intros G;
